@@ -8,7 +8,11 @@
                     PreBlocking (C11's guarantee: nothing reaches the source Redis between blocking-done and redirect);
      commit_ok      the destination's metadata commit does not happen while some transfer holds a dumped value whose
                     RESTORE has not executed yet;
-     classified_ok  every Delete command is classified deleting (cpush = requires_blocking_migration).
+     classified_ok  every Delete command is classified deleting (cpush = requires_blocking_migration);
+     ensured_ok     a multi-key command (multi-key EVAL) that DELETES a key other than its first key - it is pushed
+                    (UMSYNC) for its first key only - does so when the source copy of that key is gone and no transfer
+                    holds a dumped value of it (vacuous for runs without EvEnsured events, i.e. single-key commands and
+                    multi-key reads / writes).
    `history` is the client history (HInv/HRep) with one marker HLin at each linearization point. *)
 From Coq Require Import String.
 From UM Require Import Base.BytesDef Base.RespT Model.Ttl Model.Migrate
@@ -20,7 +24,7 @@ From UM Require Import Base.BytesDef Base.RespT Model.Ttl Model.Migrate
 Theorem C03_step_simulation : forall s0 evs1 e s s',
   wf_init s0 -> run (init s0) evs1 = Some s -> step s e = Some s' ->
   c11_ok (init s0) (evs1 ++ [e]) = true -> commit_ok (init s0) (evs1 ++ [e]) = true ->
-  classified_ok (init s0) (evs1 ++ [e]) = true ->
+  classified_ok (init s0) (evs1 ++ [e]) = true -> ensured_ok (init s0) (evs1 ++ [e]) = true ->
   match lin_point e with
   | Some i => exists o, nth_error (ops s) i = Some o /\
                 hist_step s e = [HLin i (ckind (ocmd o)) (L (gl s))] /\
@@ -32,7 +36,7 @@ Proof. exact run_step_simulation. Qed.
 Check C03_step_simulation : forall s0 evs1 e s s',
   wf_init s0 -> run (init s0) evs1 = Some s -> step s e = Some s' ->
   c11_ok (init s0) (evs1 ++ [e]) = true -> commit_ok (init s0) (evs1 ++ [e]) = true ->
-  classified_ok (init s0) (evs1 ++ [e]) = true ->
+  classified_ok (init s0) (evs1 ++ [e]) = true -> ensured_ok (init s0) (evs1 ++ [e]) = true ->
   match lin_point e with
   | Some i => exists o, nth_error (ops s) i = Some o /\
                 hist_step s e = [HLin i (ckind (ocmd o)) (L (gl s))] /\
@@ -50,12 +54,14 @@ Print Assumptions C03_step_simulation.
 Theorem C03_linearizable : forall s0 evs st,
   wf_init s0 -> run (init s0) evs = Some st ->
   c11_ok (init s0) evs = true -> commit_ok (init s0) evs = true -> classified_ok (init s0) evs = true ->
+  ensured_ok (init s0) evs = true ->
   exists lin, is_linearization lin (client_history (history (init s0) evs)) /\
               register_spec (val s0) lin = Some (L (gl st)).
 Proof. exact linearizable. Qed.
 Check C03_linearizable : forall s0 evs st,
   wf_init s0 -> run (init s0) evs = Some st ->
   c11_ok (init s0) evs = true -> commit_ok (init s0) evs = true -> classified_ok (init s0) evs = true ->
+  ensured_ok (init s0) evs = true ->
   exists lin, is_linearization lin (client_history (history (init s0) evs)) /\
               register_spec (val s0) lin = Some (L (gl st)).
 Print Assumptions C03_linearizable.
@@ -67,6 +73,7 @@ Print Assumptions C03_linearizable.
 Theorem C03_final : forall s0 evs st,
   wf_init s0 -> run (init s0) evs = Some st ->
   c11_ok (init s0) evs = true -> commit_ok (init s0) evs = true -> classified_ok (init s0) evs = true ->
+  ensured_ok (init s0) evs = true ->
   is_passed (scan (gl st)) = true -> committed (gl st) = true -> quiescent st = true ->
   src (gl st) = None /\
   register_spec (val s0) (history (init s0) evs) = Some (val (dst (gl st))) /\
@@ -76,6 +83,7 @@ Proof. exact final_state. Qed.
 Check C03_final : forall s0 evs st,
   wf_init s0 -> run (init s0) evs = Some st ->
   c11_ok (init s0) evs = true -> commit_ok (init s0) evs = true -> classified_ok (init s0) evs = true ->
+  ensured_ok (init s0) evs = true ->
   is_passed (scan (gl st)) = true -> committed (gl st) = true -> quiescent st = true ->
   src (gl st) = None /\
   register_spec (val s0) (history (init s0) evs) = Some (val (dst (gl st))) /\
@@ -89,6 +97,7 @@ Print Assumptions C03_final.
 Theorem C03_ttl_preserved : forall s0 evs s e s',
   wf_init s0 -> run (init s0) evs = Some s ->
   c11_ok (init s0) evs = true -> commit_ok (init s0) evs = true -> classified_ok (init s0) evs = true ->
+  ensured_ok (init s0) evs = true ->
   is_transfer e = true -> step s e = Some s' ->
   match dst (gl s) with
   | Some _ => dst (gl s') = dst (gl s)
@@ -99,6 +108,7 @@ Proof. exact ttl_preserved. Qed.
 Check C03_ttl_preserved : forall s0 evs s e s',
   wf_init s0 -> run (init s0) evs = Some s ->
   c11_ok (init s0) evs = true -> commit_ok (init s0) evs = true -> classified_ok (init s0) evs = true ->
+  ensured_ok (init s0) evs = true ->
   is_transfer e = true -> step s e = Some s' ->
   match dst (gl s) with
   | Some _ => dst (gl s') = dst (gl s)
@@ -125,7 +135,7 @@ Definition run_unclassified : list event :=
 
 Theorem C03_unclassified_delete_refuted : exists s0 evs st,
   wf_init s0 /\ run (init s0) evs = Some st /\
-  c11_ok (init s0) evs = true /\ commit_ok (init s0) evs = true /\ classified_ok (init s0) evs = false /\
+  c11_ok (init s0) evs = true /\ commit_ok (init s0) evs = true /\ classified_ok (init s0) evs = false /\ ensured_ok (init s0) evs = true /\
   register_spec (val s0) (history (init s0) evs) = None /\
   history (init s0) evs = [HInv 0 (mkCmd KDelete false); HLin 0 KDelete (Some wa); HRep 0 (ROk (Some wa));
                             HInv 1 (mkCmd KRead false); HLin 1 KRead (Some wa); HRep 1 (ROk (Some wa))].
@@ -136,7 +146,7 @@ Proof.
 Qed.
 Check C03_unclassified_delete_refuted : exists s0 evs st,
   wf_init s0 /\ run (init s0) evs = Some st /\
-  c11_ok (init s0) evs = true /\ commit_ok (init s0) evs = true /\ classified_ok (init s0) evs = false /\
+  c11_ok (init s0) evs = true /\ commit_ok (init s0) evs = true /\ classified_ok (init s0) evs = false /\ ensured_ok (init s0) evs = true /\
   register_spec (val s0) (history (init s0) evs) = None /\
   history (init s0) evs = [HInv 0 (mkCmd KDelete false); HLin 0 KDelete (Some wa); HRep 0 (ROk (Some wa));
                             HInv 1 (mkCmd KRead false); HLin 1 KRead (Some wa); HRep 1 (ROk (Some wa))].
@@ -155,6 +165,7 @@ Definition run_commit_race : list event :=
 Theorem C03_commit_race_witness : exists s0 evs st,
   wf_init s0 /\ run (init s0) evs = Some st /\
   c11_ok (init s0) evs = true /\ commit_ok (init s0) evs = false /\ classified_ok (init s0) evs = true /\
+  ensured_ok (init s0) evs = true /\
   register_spec (val s0) (history (init s0) evs) = None.
 Proof.
   exists ws0, run_commit_race. eexists. split.
@@ -164,6 +175,7 @@ Qed.
 Check C03_commit_race_witness : exists s0 evs st,
   wf_init s0 /\ run (init s0) evs = Some st /\
   c11_ok (init s0) evs = true /\ commit_ok (init s0) evs = false /\ classified_ok (init s0) evs = true /\
+  ensured_ok (init s0) evs = true /\
   register_spec (val s0) (history (init s0) evs) = None.
 Print Assumptions C03_commit_race_witness.
 
@@ -179,6 +191,7 @@ Definition run_no_barrier : list event :=
 Theorem C03_barrier_needed_witness : exists s0 evs st,
   wf_init s0 /\ run (init s0) evs = Some st /\
   c11_ok (init s0) evs = false /\ commit_ok (init s0) evs = true /\ classified_ok (init s0) evs = true /\
+  ensured_ok (init s0) evs = true /\
   register_spec (val s0) (history (init s0) evs) = None.
 Proof.
   exists ws0, run_no_barrier. eexists. split.
@@ -188,8 +201,51 @@ Qed.
 Check C03_barrier_needed_witness : exists s0 evs st,
   wf_init s0 /\ run (init s0) evs = Some st /\
   c11_ok (init s0) evs = false /\ commit_ok (init s0) evs = true /\ classified_ok (init s0) evs = true /\
+  ensured_ok (init s0) evs = true /\
   register_spec (val s0) (history (init s0) evs) = None.
 Print Assumptions C03_barrier_needed_witness.
+
+(* the ensured_ok premise is necessary: a multi-key script deletes its SECOND key k on the destination (ensure_keys_imported
+   found k there: the scanner had copied it and still has to delete the source copy) - nothing orders the deletion
+   against a pull that holds a dump of k taken before: its RESTORE brings the deleted value back *)
+Definition run_ensured_delete : list event :=
+  to_scanning ++
+  [EvInvoke (mkCmd KRead false) false; EvSendExists 0; EvExistsExec 0; EvPullLock 0 true; EvDumpExec 0; EvPttlExec 0;
+   EvScanLock; EvScanPttl; EvScanDump; EvScanRestore; EvScanDel;
+   EvInvoke (mkCmd KDelete true) false; EvEnsured 1; EvExecDst 1; EvReply 1;
+   EvRestoreExec 0; EvExecDst 0; EvReply 0].
+
+Theorem C03_ensured_delete_witness : exists s0 evs st,
+  wf_init s0 /\ run (init s0) evs = Some st /\
+  c11_ok (init s0) evs = true /\ commit_ok (init s0) evs = true /\ classified_ok (init s0) evs = true /\
+  ensured_ok (init s0) evs = false /\
+  register_spec (val s0) (history (init s0) evs) = None.
+Proof.
+  exists ws0, run_ensured_delete. eexists. split.
+  - intros raw t H. inversion H; subst. reflexivity.
+  - vm_compute. repeat split.
+Qed.
+Check C03_ensured_delete_witness : exists s0 evs st,
+  wf_init s0 /\ run (init s0) evs = Some st /\
+  c11_ok (init s0) evs = true /\ commit_ok (init s0) evs = true /\ classified_ok (init s0) evs = true /\
+  ensured_ok (init s0) evs = false /\
+  register_spec (val s0) (history (init s0) evs) = None.
+Print Assumptions C03_ensured_delete_witness.
+
+(* a multi-key command never reaches the destination for a key that is still only on the source: EvEnsured is not
+   enabled there (the acceptor relies on this) *)
+Theorem C03_ensured_needs_import : forall s i s',
+  step s (EvEnsured i) = Some s' -> dst (gl s) = None -> src (gl s) = None.
+Proof.
+  intros s i s' H D. unfold step in H. cbn [ev_op is_cl_event] in H.
+  destruct (nth_error (ops s) i) as [[c p cl]|]; [|discriminate].
+  unfold op_step in H. cbn [opc ocmd ocl] in H. destruct p; try discriminate.
+  rewrite D in H. cbn [is_none negb orb] in H.
+  destruct (src (gl s)); auto. rewrite !andb_false_r in H. discriminate.
+Qed.
+Check C03_ensured_needs_import : forall s i s',
+  step s (EvEnsured i) = Some s' -> dst (gl s) = None -> src (gl s) = None.
+Print Assumptions C03_ensured_needs_import.
 
 (* ---------- the finite obligation (classification table) ---------- *)
 Open Scope string_scope.
@@ -225,9 +281,27 @@ Definition run_good : list event :=
    EvScanFinished; EvDstFinal; EvSrcFinal; EvCommit;
    EvInvoke (mkCmd (KWrite wa) false) false; EvDirect 3; EvExecDst 3; EvReply 3].
 
+(* the same with a multi-key script whose SECOND key is this key: the EXISTS of ensure_keys_imported pulls it (op 0), then the
+   script writes it (op 1, EvEnsured), later another script deletes it once the source copy is gone (op 2) *)
+Definition run_multikey : list event :=
+  to_scanning ++
+  [EvInvoke (mkCmd KRead false) false; EvInvoke (mkCmd (KWrite wb) true) false;
+   EvSendExists 0; EvExistsExec 0; EvPullLock 0 true; EvDumpExec 0; EvPttlExec 0; EvRestoreExec 0; EvExecDst 0;
+   EvEnsured 1; EvExecDst 1; EvReply 1; EvPullUnlock 0; EvPullDel 0;
+   EvInvoke (mkCmd KDelete true) false; EvEnsured 2; EvExecDst 2; EvReply 2; EvScanSkip].
+
+Example C03_multikey_premises_satisfiable : exists st,
+  run (init ws0) run_multikey = Some st /\
+  c11_ok (init ws0) run_multikey = true /\ commit_ok (init ws0) run_multikey = true /\
+  classified_ok (init ws0) run_multikey = true /\ ensured_ok (init ws0) run_multikey = true /\
+  src (gl st) = None /\ dst (gl st) = None /\
+  register_spec (val ws0) (history (init ws0) run_multikey) = Some None.
+Proof. eexists. vm_compute. repeat split. Qed.
+
 Example C03_premises_satisfiable : exists st,
   wf_init ws0 /\ run (init ws0) run_good = Some st /\
   c11_ok (init ws0) run_good = true /\ commit_ok (init ws0) run_good = true /\ classified_ok (init ws0) run_good = true /\
+  ensured_ok (init ws0) run_good = true /\
   is_passed (scan (gl st)) = true /\ committed (gl st) = true /\ quiescent st = true /\
   src (gl st) = None /\ val (dst (gl st)) = Some wa /\
   register_spec (val ws0) (history (init ws0) run_good) = Some (Some wa).
